@@ -97,6 +97,17 @@ def isSharedCore (projectRoot : Option Path) (coreDir : Path) : Bool :=
   | none => false
   | some root => parentDir coreDir == root || parentDir (parentDir coreDir) == root
 
+/-- `_is_shared_core(core_dir, client_package_name)` since the repair of F22: the old heuristic, or - for a client package given
+    as its path components below the project root - the core directory is neither the client's directory nor inside it. -/
+def isSharedCoreFor (projectRoot : Option Path) (coreDir : Path) (clientPkg : Option Path) : Bool :=
+  match projectRoot with
+  | none => false
+  | some root =>
+    parentDir coreDir == root || parentDir (parentDir coreDir) == root ||
+      (match clientPkg with
+       | some (c :: cs) => !(root ++ (c :: cs)).isPrefixOf coreDir
+       | _ => false)
+
 /-! ## the registry -/
 
 /-- What is on disk in the core package: `.exception_registry.json` (client ↦ codes, python dict
